@@ -31,8 +31,9 @@ def regenerate_all():
         translate_alias()
     except Broken as b:
         ALIAS_BROKEN = b
-    from lib import drvgen, apigen, reggen, enumgen, blehgen
+    from lib import drvgen, apigen, reggen, enumgen, blehgen, dbggen
     drvgen.translate()
+    dbggen.translate()
     apigen.translate()
     reggen.translate()
     enumgen.translate()
